@@ -78,7 +78,7 @@ def _gen_opts(rng, kind, F):
     if kind in ('cacgmm', 'gcacgmm'):
         o['covariance_norm'] = _choice(rng, ['eigenvalue', 'eigenvalue',
                                              'trace', False])
-        o['affiliation_eps'] = _choice(rng, [0.0, 1e-10])
+        o['affiliation_eps'] = _choice(rng, [0.0, 1e-10, 1e-10, 1e-6, 1e-3])
         o['hermitize'] = bool(rng.randint(4) != 0)
         o['eigenvalue_floor'] = _choice(rng, [1e-10, 1e-10, 1e-8])
     if kind == 'gmm':
@@ -107,7 +107,12 @@ def _data_specs(rng, kind, K, D, F, N, E):
                         'spread': float(_choice(rng, [0.5, 1.0, 2.0])),
                         'dynamic_range': float(_choice(rng, [0, 0, 0, 6, 12, 19]))}
         geometry = int(rng.randint(12))
-        if geometry == 0:
+        if geometry in (3, 4):
+            # strongly overlapping classes: one isotropic complex Gaussian
+            # (posteriors stay far from 0 and 1)
+            specs['obs'] = {'kind': 'cnormal', 'shape': lead + [N, D],
+                            'seed': seed, 'layout': layout}
+        elif geometry == 0:
             specs['obs']['unbalanced'] = int(D + 2 + rng.randint(0, D + 1))
         elif geometry == 1:
             specs['obs']['duplicates'] = float(_choice(rng, [0.05, 0.3]))
@@ -216,6 +221,22 @@ def generate(run_seed, tier='quick'):
         N = int(rng.randint(4200, 7000)) if kind == 'gmm' else \
             int(rng.randint(4200, 7000)) // max(F, 1)
     specs = _data_specs(rng, kind, K, D, F, N, E)
+    if kind == 'gmm' and rng.randint(6) == 0:
+        # caller-given covariances: means and weights are still an exact M-step
+        ct = opts['covariance_type']
+        lead_ = [F] if F > 0 else []
+        fc = {'seed': int(rng.randint(2 ** 31)), 'layout': 'C'}
+        # commensurate with the spread of the data (a covariance that is
+        # orders of magnitude too small makes every posterior underflow to
+        # exactly 0 / 1, where the E-step's own floors take over)
+        v = float(specs['obs'].get('scale', 1.0)) ** 2
+        if ct == 'full':
+            fc.update(kind='spd', shape=lead_ + [K, D, D], load=0.3, mult=v)
+        elif ct == 'diagonal':
+            fc.update(kind='uniform', shape=[K, D], low=0.3 * v, high=2.0 * v)
+        else:
+            fc.update(kind='uniform', shape=[K], low=0.3 * v, high=2.0 * v)
+        specs['fixed_covariance'] = fc
     max_it = 50 if thorough else 30
     n = int(rng.randint(1, max_it + 1)) if rng.randint(3) else int(rng.randint(1, 9))
     many_channels = kind == 'cwmm' and rng.randint(200) == 0
@@ -243,9 +264,18 @@ def generate(run_seed, tier='quick'):
                                  + ([{'max_concentration': 700}] if D <= 7 else []))
     if many_channels:
         trainer_kwargs = {}
+    many_frames = kind in ('cacgmm', 'gcacgmm') and rng.randint(150) == 0
+    if many_frames:
+        # long recordings (size-dependent code paths of the cACG update)
+        K, D, E = 2, int(_choice(rng, [2, 3, 4])), 2
+        F = 0 if kind == 'cacgmm' else 1
+        N = int(rng.randint(16500, 24000))
+        opts = _gen_opts(rng, kind, F)
+        specs = _data_specs(rng, kind, K, D, F, N, E)
+        n = int(rng.randint(3, 9))
     ops = []
     # earlier history on the shared trainer
-    for _ in range(0 if many_channels else int(_choice(rng, [0, 0, 1, 2, 3, 5]))):
+    for _ in range(0 if (many_channels or many_frames) else int(_choice(rng, [0, 0, 1, 2, 3, 5]))):
         if rng.randint(4) == 0:
             ops.append({'op': 'draws', 'k': int(rng.randint(1, 50))})
         else:
@@ -413,6 +443,9 @@ def execute(program):
     emb = data.make(specs['emb']) if 'emb' in specs else None
     init = data.make(specs['init'])
     sal = data.make(specs['saliency']) if 'saliency' in specs else None
+    extra = {}
+    if 'fixed_covariance' in specs:
+        extra['fixed_covariance'] = data.make(specs['fixed_covariance'])
     seams.rng_seed(program['rng_seed'])
     trainer = models.new_trainer(kind, tk)
     ops = program['ops']
@@ -480,6 +513,16 @@ def execute(program):
             if not state['guarded'] and guard_active(kind, model, opts, tk):
                 state['guarded'] = True
                 tr.count('probe:guard_active_prefix_cut')
+            eps_ = float(opts.get('affiliation_eps', 0.0) or 0.0)
+            if not state['guarded'] and eps_ > 1e-10 \
+                    and (iteration > 0 or src != 'init'):
+                # the posterior this M-step used was clipped to [eps, 1-eps];
+                # where the clip is (nearly) active the step is no exact
+                # E-step (a numerical guard in the sense of the quantifier)
+                if np.min(affiliation) <= 2 * eps_ \
+                        or np.max(affiliation) >= 1 - 2 * eps_:
+                    state['guarded'] = True
+                    tr.count('probe:posterior_clip_active_prefix_cut')
             if not state['guarded']:
                 if not np.isfinite(L):
                     tr.violations.append({
@@ -510,7 +553,8 @@ def execute(program):
         try:
             with seams.observe(observer):
                 model = models.call_fit(kind, trainer, obs, emb, start,
-                                        op['iterations'], opts, saliency=sal)
+                                        op['iterations'], opts, saliency=sal,
+                                        extra=extra)
         except SimulatedCancel:
             outcome = 'cancelled'
             tr.count('fault_fired:cancel')
@@ -569,7 +613,7 @@ def execute(program):
             try:
                 fresh = models.new_trainer(kind, tk)
                 m = models.call_fit(kind, fresh, obs, emb, init, rp, opts,
-                                    saliency=sal)
+                                    saliency=sal, extra=extra)
                 L = models.mixture_log_likelihood(kind, m, obs, emb, sal)
                 Lh = float.fromhex(first[4][rp - 1])
                 tr.count('prefix_refits')
@@ -680,6 +724,10 @@ def shrink_candidates(program):
         F_ = p['F'] if F is None else F
         N_ = p['N'] if N is None else N
         for k, s in q['specs'].items():
+            if k == 'fixed_covariance':
+                if p['F'] > 0 and len(s['shape']) == 4:
+                    s['shape'] = [F_] + list(s['shape'][1:])
+                continue
             shp = list(s['shape'])
             if p['F'] > 0:
                 shp[0] = F_
